@@ -61,7 +61,21 @@ _cls_n = [0]
 def rnd_type(rng, depth):
     if depth == 0 or rng.random() < 0.3:
         return rnd_leaf(rng)
-    k = rng.choice(["list", "list", "set", "tuple", "tuplee", "dict", "union", "union", "opt", "xor", "and", "not", "cls", "listc"])
+    k = rng.choice(["list", "list", "set", "tuple", "tuplee", "dict", "union", "union", "opt", "xor", "and", "not", "cls", "listc", "contains"])
+    if k == "contains":
+        # a sequence constrained only by contains / min_contains / max_contains, nested in a container
+        inner = gen.rule(rng.choice(["list", "tuple"]), contains=gen.prim("int"), minc=rng.choice([-1, 1, 2]), maxc=rng.choice([-1, 1, 2, 3]))
+        if inner["minc"] > 0 and 0 <= inner["maxc"] < inner["minc"]:
+            inner["maxc"] = -1
+        inner["_contains"] = True
+        w = rng.choice(["list", "tuplee", "dict", "bare"])
+        if w == "list":
+            return gen.rule("list", args=[inner])
+        if w == "tuplee":
+            return gen.rule("tuple", args=[inner], ell=True)
+        if w == "dict":
+            return gen.rule("dict", args=[gen.prim("str"), inner])
+        return inner
     if k == "list":
         return gen.rule("list", args=[rnd_type(rng, depth - 1)])
     if k == "listc":
@@ -110,6 +124,10 @@ def shaped_inputs(rng, T, n):
             return rng.choice(SCALARS + CONTAINERS)
         if k in ("prim", "rule") and T["name"] in ("int", "float", "str", "bool", "none", "bytes", "Decimal", ""):
             return rng.choice(SCALARS)
+        if k == "rule" and T.get("_contains"):
+            # elements either are ints or cannot be converted to int, so that "matching" is unambiguous
+            items = [rng.choice([1, 2, 3, "a", "b"]) for _ in range(rng.randint(0, 4))]
+            return list(items) if (T["name"] == "list") == (rng.random() < 0.8) else tuple(items)
         if k == "rule" and T["name"] in ("list", "set", "tuple"):
             if T["name"] == "tuple" and not T["ell"]:
                 items = [make(a, d + 1) for a in T["args"]]
